@@ -55,6 +55,26 @@ def countWidth (id : String) : Items → Option Nat
   | .cons (.chunk fs) r => (countWidthIn id fs).or (countWidth id r)
   | .cons _ r => countWidth id r
 
+def sizeFieldIn (id : String) : List BitField → Option (Nat × Nat)
+  | [] => none
+  | .size t w m :: r => if t == id then some (w, m) else sizeFieldIn id r
+  | _ :: r => sizeFieldIn id r
+
+/-- declared width and size modifier of the `_size_` field of array `id` -/
+def sizeField (id : String) : Items → Option (Nat × Nat)
+  | .nil => none
+  | .cons (.chunk fs) r => (sizeFieldIn id fs).or (sizeField id r)
+  | .cons _ r => sizeField id r
+
+/-- width of the C++ unsigned type that holds a field of `w` bits -/
+def typeBits (w : Nat) : Nat := if w ≤ 8 then 8 else if w ≤ 16 then 16 else if w ≤ 32 then 32 else 64
+
+/-- `x_size_ = x_size_ - modifier;` in the type of the size field: below zero it wraps to a large size -/
+def subModifier (all : Items) (id : String) (siz : Option Nat) : Option Nat :=
+  match siz, sizeField id all with
+  | some sz, some (w, m) => some (if m ≤ sz then sz - m else (sz + 2 ^ typeBits w - m) % 2 ^ typeBits w)
+  | s, _ => s
+
 /-- `{element_size} * x_count_` as C++ computes it, `cw` the declared width of the count field:
     `uint8_t` / `uint16_t` promote to `int` (overflow of the signed product is undefined behaviour),
     `uint32_t` wraps at 2^32, `uint64_t` at 2^64 -/
@@ -196,7 +216,8 @@ def decItem (c : Cfg) (all rest : Items) : Item → Bytes → DState → Dec (DS
       else if bs.length < k then .err .length
       else .ok ({ st with payload := some (bs.take (bs.length - k)) }, bs.drop (bs.length - k))
   | .array id elem ew shape pad, bs, st =>
-    (arrayFull (decElem c elem) ew shape (countWidth id all) (st.ctx.get (.count id)) (st.ctx.get (.size id)) bs).bind
+    (arrayFull (decElem c elem) ew shape (countWidth id all) (st.ctx.get (.count id))
+        (subModifier all id (st.ctx.get (.size id))) bs).bind
       fun (vs, r) => (afterPad pad bs.length r).bind fun r' =>
         .ok ({ st with fields := st.fields ++ [(id, .arr vs)] }, r')
 
@@ -250,7 +271,7 @@ def wfItem (all rest : Items) : Item → Bool
   | .payload (.beforeStatic k) => Py.tailKeep rest == k
   | .payload .undelimited => false
   | .array id elem ew shape pad =>
-    pad.isNone && wfTy elem &&
+    pad.isNone && id != "_payload_" && wfTy elem &&
     (match ew with
      | .static w => staticTy elem == some w && localWfTy elem &&
          (match shape with | .countField => countOk all id w | _ => true)
@@ -365,7 +386,8 @@ def getter (c : Cfg) (elem : Ty) (shape : Shape) (cnt : Option Nat) (sl : Bytes)
     getter is DEFERRED (second component of the state) until the view has been found valid. -/
 def viewItem (c : Cfg) (all rest : Items) : Item → Bytes → DState × Option Hazard → Dec ((DState × Option Hazard) × Bytes)
   | .array id elem ew shape pad, bs, (st, hz) =>
-    (arrayLite c elem ew shape (countWidth id all) (st.ctx.get (.count id)) (st.ctx.get (.size id)) bs).bind
+    (arrayLite c elem ew shape (countWidth id all) (st.ctx.get (.count id))
+        (subModifier all id (st.ctx.get (.size id))) bs).bind
       fun (s, r) => (afterPad pad bs.length r).bind fun r' =>
         match getter c elem shape (st.ctx.get (.count id)) s with
         | .ok vs => .ok (({ st with fields := st.fields ++ [(id, .arr vs)] }, hz), r')
@@ -403,7 +425,7 @@ def viewDecode (c : Cfg) : Body → Bytes → Dec Value
     the getters are lenient: KF-C14-enum-array, KF-C14-struct-array-*) -/
 def vwfItem (all rest : Items) : Item → Bool
   | .array id elem ew shape pad =>
-    pad.isNone &&
+    pad.isNone && id != "_payload_" &&
     (match elem, ew with
      | .scalar w', .static w => w == w' / 8 && decide (0 < w) &&
          (match shape with | .countField => countOk all id w | _ => true)
